@@ -568,3 +568,76 @@ func GenDeepDefs(r *rand.Rand) []SDef {
 	}
 	return defs
 }
+
+// GenCycleDefs: a cycle of 2..4 unannotated definitions of a non-default mode whose only
+// mode source (an annotated definition, or a shift) is reachable through ONE member of the
+// cycle, at a random position of that member's body, plus unannotated users that reach the
+// cycle through a member of their own choosing; declaration order shuffled. Every
+// definition has the mode of the source; inference has to get there whatever definition it
+// starts from and whatever it has explored before.
+func GenCycleDefs(r *rand.Rand) []SDef {
+	g := &g2{r: r}
+	m := []Mode{Lin, Aff, Mul}[r.Intn(3)]
+	k := 2 + r.Intn(3)
+	var defs []SDef
+	src := &SNode{K: KName, Name: "Src"}
+	switch r.Intn(3) {
+	case 0:
+		defs = append(defs, SDef{Name: "Src", Ann: g.sp(m), Body: &SNode{K: KUnit}})
+	case 1:
+		defs = append(defs, SDef{Name: "Src", Ann: g.sp(m), Body: &SNode{K: KPlus, Br: []SBranch{{L: "a", T: &SNode{K: KUnit}}, {L: "b", T: &SNode{K: KName, Name: "Src"}}}}})
+	default:
+		// the source is a shift written inside the cycle member itself
+		var ks []Mode
+		for _, q := range AllModes {
+			if Geq(q, m) {
+				ks = append(ks, q)
+			}
+		}
+		q := ks[r.Intn(len(ks))]
+		src = &SNode{K: KDown, From: g.sp(q), To: g.sp(m), L: &SNode{K: KUnit}}
+	}
+	holder := r.Intn(k)
+	name := func(i int) string { return fmt.Sprintf("Cy%d", i%k) }
+	for i := 0; i < k; i++ {
+		next := &SNode{K: KName, Name: name(i + 1)}
+		var parts []*SNode
+		parts = append(parts, next)
+		if r.Intn(3) == 0 {
+			parts = append(parts, &SNode{K: KUnit})
+		}
+		if i == holder {
+			parts = append(parts, src)
+		}
+		if r.Intn(4) == 0 {
+			parts = append(parts, &SNode{K: KName, Name: name(i + 2)})
+		}
+		r.Shuffle(len(parts), func(a, b int) { parts[a], parts[b] = parts[b], parts[a] })
+		var body *SNode
+		if len(parts) == 1 || r.Intn(2) == 0 {
+			body = &SNode{K: []Kind{KPlus, KWith}[r.Intn(2)]}
+			for j, p := range parts {
+				body.Br = append(body.Br, SBranch{L: fmt.Sprintf("l%d", j), T: p})
+			}
+		} else {
+			body = parts[0]
+			for _, p := range parts[1:] {
+				body = &SNode{K: []Kind{KSend, KRecv}[r.Intn(2)], L: p, R: body}
+			}
+			if body.K == KName {
+				body = &SNode{K: KSend, L: &SNode{K: KUnit}, R: body}
+			}
+		}
+		defs = append(defs, SDef{Name: name(i), Body: body})
+	}
+	for u := 0; u < 1+r.Intn(2); u++ {
+		ref := &SNode{K: KName, Name: name(r.Intn(k))}
+		body := &SNode{K: KSend, L: ref, R: &SNode{K: KUnit}}
+		if r.Intn(2) == 0 {
+			body = &SNode{K: KWith, Br: []SBranch{{L: "go", T: ref}}}
+		}
+		defs = append(defs, SDef{Name: fmt.Sprintf("User%d", u), Body: body})
+	}
+	r.Shuffle(len(defs), func(i, j int) { defs[i], defs[j] = defs[j], defs[i] })
+	return defs
+}
